@@ -52,6 +52,10 @@ import (
 //            = after the last octet, instead of EOF), "<k>e" the error comes together with the
 //            last octets.  The body is c01hBody (8.6 KB, so k in the middle is past what has
 //            already gone out on the wire).
+//     enh    (optional 9th field) how the enhanced status code of every 4xx/5xx reply of the attempt
+//            reads: a agreeing with the basic code (default), n absent, 2 4 5 that class, 0 = 0.1.1,
+//            1 = 1.1.1, 9 = 9.0.0, m = -1.-1.-1, k = <class>.1000.1 (vc01hop.Restyle).  The basic
+//            code - the one the property speaks of - stays what the action letter says.
 //   act letters: see vc01hop.Script.
 // Ground truth = the recipients of the transactions the hop acknowledged with 250 after the final dot.
 
@@ -115,10 +119,19 @@ func c01hParseScript(s string, keys []string) (*vc01hop.Script, error) {
 	if len(f) == 7 {
 		f = append(f, "-")
 	}
+	enh := byte('a')
+	if len(f) == 9 {
+		if len(f[8]) != 1 || !strings.Contains(c01Styles, f[8]) {
+			return nil, fmt.Errorf("bad enhanced code style in %q", s)
+		}
+		enh = f[8][0]
+		f = f[:8]
+	}
 	if len(f) != 8 || f[7] == "" || len(f[0]) < 2 || len(f[1]) < 2 || len(f[2]) != len(keys) || len(f[4]) != len(keys) || len(f[3]) != 1 || len(f[6]) != 1 {
 		return nil, fmt.Errorf("bad script %q", s)
 	}
 	sc := vc01hop.NewScript()
+	sc.Enh = enh
 	sc.MailN, _ = strconv.Atoi(f[0][:len(f[0])-1])
 	sc.MailAct = f[0][len(f[0])-1]
 	if f[1][0] != '-' {
@@ -441,6 +454,41 @@ func c01hRun(t *testing.T, out *vh.Out, op string, port string) {
 	if !removed {
 		out.Violation("C01/hop-"+name+"-not-terminated", op, obs)
 	}
+	// re-attempted only after a temporary failure, stated on the BASIC reply codes the hop sent:
+	// once the last reply of an attempt that concerns a recipient was 5yz (552 apart, which RFC 5321
+	// 4.5.3.1.10 tells clients to read as 452), the hop never hears of that recipient again; and when
+	// every failure of the history is a coded reply (no dropped connection, no MAIL fault, no body
+	// fault) a recipient whose last reply was 4yz with attempts left is tried again
+	coded := true
+	for _, sc := range scripts {
+		if sc.MailAct != 'o' || sc.Drop >= 0 || sc.HasBodyFault() || strings.IndexByte("cdrs", sc.LimitAct) >= 0 ||
+			strings.IndexByte("cdrs", sc.DataAct) >= 0 || strings.IndexByte("cdrs", sc.QuitAct) >= 0 {
+			coded = false
+		}
+	}
+	type lastEv struct{ epoch, code int }
+	last := map[string]lastEv{}
+	flagged := map[string]bool{}
+	for _, e := range sh.EventLog() {
+		if l, ok := last[e.Rcpt]; ok && l.epoch < e.Epoch && l.code/100 == 5 && l.code != 552 && !flagged[e.Rcpt] {
+			flagged[e.Rcpt] = true
+			out.Violation("C01/hop-"+name+"-retried-after-permanent", op, fmt.Sprintf("rcpt %d (%s): the next hop answered %d in attempt %d and was offered the recipient again in attempt %d; %s", keyToID[e.Rcpt], e.Rcpt, l.code, l.epoch, e.Epoch, obs))
+		}
+		last[e.Rcpt] = lastEv{e.Epoch, e.Code}
+	}
+	if coded {
+		for k, l := range last {
+			if (l.code/100 == 4 || l.code == 552) && l.epoch < maxTries && l.epoch <= attempt {
+				out.Violation("C01/hop-"+name+"-not-retried-after-temporary", op, fmt.Sprintf("rcpt %d (%s): the next hop answered %d in attempt %d of %d and never heard of the recipient again; %s", keyToID[k], k, l.code, l.epoch, maxTries, obs))
+			}
+		}
+		out.Stat("hop." + name + ".coded-replies-only")
+	}
+	for _, sc := range scripts {
+		if sc.Enh != 'a' {
+			out.Stat("hop." + name + ".enh-style." + string(sc.Enh))
+		}
+	}
 	out.Stat("hop.kind." + name)
 	out.Stat(fmt.Sprintf("hop.%s.attempts.%d", name, attempt))
 	out.StatN("hop.rcpts", len(ids))
@@ -515,7 +563,8 @@ func (d *c01hPartialDelivery) BodyNonAtomic(ctx context.Context, sc module.Statu
 
 // c01hGen draws one case.  bias: 0 = mixed, 1 = faults in the RCPT phase, 2 = at teardown, 3 = at MAIL,
 // 4 = the spooled body cannot be read in the first attempt (sub picks how), 5 = several spellings of one mailbox
-// with different per-recipient outcomes in the first attempt.
+// with different per-recipient outcomes in the first attempt, 6 = coded replies whose enhanced status code
+// disagrees with the basic code / is odd / absent (sub picks the style and whether 5yz or 4yz comes first).
 func c01hGen(r *vh.Rng, kind string, bias, sub int) string {
 	nr := 1 + r.Intn(5)
 	if bias == 1 || r.Chance(50) {
@@ -704,7 +753,43 @@ func c01hGen(r *vh.Rng, kind string, bias, sub int) string {
 				body += "e"
 			}
 		}
-		scripts = append(scripts, strings.Join([]string{mail, limit, string(rej), data, string(st), drop, quit, body}, "/"))
+		sc := strings.Join([]string{mail, limit, string(rej), data, string(st), drop, quit, body}, "/")
+		if bias == 6 {
+			// the reply grid: a session in which every failure is a coded reply; somebody is refused in
+			// the first attempt (alternately 5yz / 4yz), the enhanced status code of the replies walks
+			// through the styles (disagreeing class, odd class, absent, out of range)
+			if a == 0 || r.Chance(50) {
+				rej = []byte(strings.Repeat("o", nr))
+				st = []byte(strings.Repeat("o", nr))
+				j := r.Intn(nr)
+				c := "pt"[(sub+a)%2]
+				data = "o"
+				switch {
+				case kind == "l" && r.Chance(50):
+					st[j] = c
+				case r.Chance(25):
+					data = string("PT"[(sub+a)%2])
+					if kind != "l" && r.Chance(50) {
+						data = string(c)
+					}
+				default:
+					rej[j] = c
+				}
+				for j2 := 0; j2 < nr; j2++ {
+					if j2 != j && r.Chance(20) {
+						rej[j2] = "tp"[r.Intn(2)]
+					}
+				}
+				sc = strings.Join([]string{"0o", "-o", string(rej), data, string(st), "-", "o", "-"}, "/")
+			} else {
+				sc = "0o/-o/" + strings.Repeat("o", nr) + "/o/" + strings.Repeat("o", nr) + "/-/o/-"
+			}
+			styles := "45019mkn2"
+			sc += "/" + string(styles[(sub+a)%len(styles)])
+		} else if r.Chance(15) {
+			sc += "/" + string(c01Styles[r.Intn(len(c01Styles))])
+		}
+		scripts = append(scripts, sc)
 	}
 	return fmt.Sprintf("C01 hop %s %d 1 %s %s %d %s", kind, maxTries, strings.Join(ids, ","), forms, utf8, strings.Join(scripts, ";"))
 }
@@ -738,8 +823,8 @@ func TestVerifC01Hop(t *testing.T) {
 	n := vh.N(600) / 3
 	jobs := make(chan string, n)
 	for i := 0; i < n; i++ {
-		bias := i % 6
-		sub := i / 30 // bias and kind repeat every 30 cases
+		bias := i % 7
+		sub := i / 35 // bias and kind repeat every 35 cases
 		switch i % 5 {
 		case 0, 1, 2:
 			jobs <- c01hGen(r, "r", bias, sub)
